@@ -189,12 +189,17 @@ class ClassProfiler(object):
         return self._strategy.has_shape_annotated_features(shape_label)
 
     def _iteration_remove_empty_shapes(self, target_shapes):
+        # References to a shape are annotated using the name of the shape, not the key of its class
+        names_to_remove = [self._shape_names_dict[a_shape_to_remove] for a_shape_to_remove in target_shapes
+                           if a_shape_to_remove in self._shape_names_dict]
         for a_shape_label_key in self._classes_shape_dict:
-            for a_prop_key in self._classes_shape_dict[a_shape_label_key]:
-                # print(self._classes_shape_dict[a_shape_label_key][a_prop_key])
-                for a_shape_to_remove in target_shapes:
-                    if a_shape_to_remove in self._classes_shape_dict[a_shape_label_key][a_prop_key]:
-                        del self._classes_shape_dict[a_shape_label_key][a_prop_key][a_shape_to_remove]
+            features_of_shape = self._classes_shape_dict[a_shape_label_key]
+            # With inverse paths, the features are stored in a tuple (direct features, inverse features)
+            for a_features_dict in (features_of_shape if type(features_of_shape) == tuple else (features_of_shape,)):
+                for a_prop_key in a_features_dict:
+                    for a_name_to_remove in names_to_remove:
+                        if a_name_to_remove in a_features_dict[a_prop_key]:
+                            del a_features_dict[a_prop_key][a_name_to_remove]
         for a_shape_to_remove in target_shapes:
             if a_shape_to_remove in self._classes_shape_dict:
                 del self._classes_shape_dict[a_shape_to_remove]
